@@ -590,6 +590,12 @@ def run(chk: Check) -> None:
     rule_a4(chk)
     rule_a5(chk)
     rule_a7(chk)
+    from .c04 import rule_m1c, rule_m3p
+
+    rule_m3p(chk, "A9")
+    from .common import reuse
+
+    reuse(chk, rule_m1c, "A10", "a configured chain (and with it the certificate rules) is never skipped because the chain object is falsy (= C04.M1c)", ("M1c",))
     from .c03 import fingerprint_definition
 
     chk.rule("A8", "the fingerprint compared with a rule's allow-list is a pure function of the presented certificate: sha256 over its DER encoding, no state between calls (= C03.T4)")
